@@ -1,4 +1,5 @@
 """C18 — printing is an observation: it changes nothing and is repeatable."""
+import os
 from lib.framework import Obligation
 from lib import env, trees
 from lib.trees import TreeBuilder, SHAPES, shape_name, nleaves
@@ -7,8 +8,30 @@ from engines.pysym.core import sym_str
 
 FUNCTIONS = ['depccg.printer.to_string and every formatter behind it (auto, auto_extended, conll, deriv, html, json, ptb, xml, jigg_xml, prolog en/ja, ja)',
              'depccg.tree.Tree accessors', 'depccg.types.Token']
-FORMATS = {'en': ['auto', 'auto_extended', 'deriv', 'xml', 'conll', 'html', 'prolog', 'jigg_xml', 'ptb', 'json'],
-           'ja': ['auto', 'deriv', 'ja', 'conll', 'html', 'jigg_xml', 'ptb', 'json', 'prolog']}
+NEED_NLTK = ('ccg2lambda', 'jigg_xml_ccg2lambda')
+
+
+def cli_formats():
+    """the formats the CLI offers per language, read from the `--format` choices in depccg/argparse.py of the tree under test (an offered
+    format that the printer cannot dispatch is then seen by the render-everything harnesses); the two formats that need nltk are left out"""
+    import ast
+    from engines.pysym import hook
+    src = open(os.path.join(hook.REPO, 'depccg', 'argparse.py'), encoding='utf-8').read()
+    out = {}
+    for node in ast.walk(ast.parse(src)):
+        if isinstance(node, ast.Call) and isinstance(node.func, ast.Attribute) and node.func.attr == 'add_argument' \
+                and any(isinstance(a, ast.Constant) and a.value == '--format' for a in node.args):
+            who = ast.unparse(node.func.value)
+            lang = 'en' if 'english' in who else ('ja' if 'japanese' in who else None)
+            for kw in node.keywords:
+                if kw.arg == 'choices' and lang:
+                    out[lang] = [f for f in ast.literal_eval(kw.value) if f not in NEED_NLTK]
+    if sorted(out) != ['en', 'ja'] or not all(out.values()):
+        raise RuntimeError('could not read the --format choices of the English and Japanese sub-commands from depccg/argparse.py')
+    return out
+
+
+FORMATS = cli_formats()
 BOUNDS = {
     'quick': 'every sequence of 2 formats (and of 3 formats starting with jigg_xml/xml/json) of the language\'s CLI choice list except ccg2lambda/jigg_xml_ccg2lambda, applied to the same result objects; batch of 1-2 sentences x 1-2 trees of <= 2 leaves (+unary); one symbolic token word of 1-2 code points',
     'thorough': 'every sequence of 3 formats; trees of <= 3 leaves',
@@ -44,8 +67,12 @@ def make_results(d, lang, shape, batch, nbest, n, minimal=False, extra=False, un
                 if s == 0 and k == 0 and i == 0 and n:
                     return dd.string('word', n, TOKEN)
                 return 'w%d' % i
-            tb = TreeBuilder(d, lang, word=w, heads=(k % 2 == 0), labels=s + k, prefix='t%d_%d' % (s, k), cats=(PUNCT if punct else None))
+            tb = TreeBuilder(d, lang, word=w, heads=(k % 2 == 0), labels=s + k, prefix='t%d_%d' % (s, k), cats=(PUNCT if punct is True else None))
             t = tb.build(shape)
+            if punct == 'symbol-labels':      # trees as the Japanese bank reader builds them: the label IS the symbol (< > >B <B1 ...)
+                for nd in trees.walk(t):
+                    if not nd.is_leaf:
+                        nd.op_string = nd.op_symbol
             if extra:
                 # tokens carrying further attributes, some named like the formats' own fields
                 for i, leaf in enumerate(t.leaves):
@@ -141,6 +168,9 @@ def obligations(tier):
                 if (batch, nbest) == (2, 2) and s == SHAPES[2][0]:
                     yield Obligation('C18.seq[%s,%s,batch=2x2,n-best lists not in score order,len=2]' % (lang, shape_name(s)), 'h_seq',
                                      dict(lang=lang, shape=s, batch=2, nbest=2, n=0, seqlen=2, unsorted=True), cost=10)
+                if (batch, nbest) == (1, 1) and s == SHAPES[2][0] and lang == 'ja':      # (the English Prolog printer keys on English labels)
+                    yield Obligation('C18.seq[%s,%s,rule labels are the symbols (< > ...),len=2]' % (lang, shape_name(s)), 'h_seq',
+                                     dict(lang=lang, shape=s, batch=1, nbest=1, n=0, seqlen=2, punct='symbol-labels'), cost=10)
                 if (batch, nbest) == (1, 1) and lang == 'en' and s in (SHAPES[2][0], SHAPES[3][0]):
                     yield Obligation('C18.seq[%s,%s,punctuation categories at the leaves,len=2]' % (lang, shape_name(s)), 'h_seq',
                                      dict(lang=lang, shape=s, batch=1, nbest=1, n=0, seqlen=2, punct=True), cost=10)
